@@ -7,6 +7,7 @@
   along with the bounds invariant `NaSafe` of SafeNA.lean.
 -/
 import Sipsp.Proofs.SafeNALo
+import Sipsp.Proofs.FieldsLo
 
 namespace Sipsp
 
@@ -650,6 +651,7 @@ theorem naStepA_nndone (h : Nat) (b : Buf) (i lo : Nat) (c : UInt8) (pf : PFromB
     (hS : NaSafe b i pf)
     (hg : pf.state = .init ∨ pf.state = .name ∨ pf.state = .nameOrURI ∨ pf.state = .nameOrURIEnd) (hI : NnInv lo pf)
     {o : Nat} {e : Err} {st' : PFromBody} (hs : naStepA h b i c pf = .done o e st') : NnDone lo e st' := by
+  have hlo' : lo ≤ i := hlo
   have hS0 := hS
   obtain ⟨⟨h1, h2, h3, h4, h5, h6, h7, h8, h9, h10⟩, h11, h12⟩ := hS
   have hI0 := hI
@@ -1029,5 +1031,544 @@ example : (parseNameAddrPVal HdrContact "sip:a@b ;tag=1 , <sip:c>\r\n\r\n".toUTF
 example : (parseNameAddrPVal HdrContact " * \r\n\r\n".toUTF8.data 0 {}).2.1 = Err.ok ∧
     (parseNameAddrPVal HdrContact " * \r\n\r\n".toUTF8.data 0 {}).2.2.uri = ⟨1, 1⟩ ∧
     (parseNameAddrPVal HdrContact " * \r\n\r\n".toUTF8.data 0 {}).2.2.v = ⟨1, 1⟩ := by decide +kernel
+
+
+/-! ### Contact / P-Asserted-Identity value lists: every stored value is nested -/
+
+/-- every stored value of a contact list is nested -/
+def CtNn (c : PContacts) : Prop := ∀ k, k < c.n → k < c.vals.size → NaNest c.vals[k]!
+
+theorem contactsLoop_nn (b : Buf) (offs : Nat) (c : PContacts) (hfit : b.size ≤ 65535) (ho : offs ≤ b.size)
+    (hcl : CtClean c) (hcur : c.cur = {}) (h : CtNn c) : CtNn (contactsLoop b offs c).2.2 := by
+  induction hk : b.size - offs using Nat.strongRecOn generalizing offs c with
+  | _ k ih =>
+    rw [contactsLoop]
+    rcases hp : parseOneContact b offs c.cur with ⟨next, e1, pf⟩
+    have hvd : Err.complete e1 → NaNest pf := fun hc =>
+      (parseNameAddrPVal_nest_new HdrContact b offs hfit ho (by rw [hcur] at hp; exact hp) hc).1
+    have hset : CtNn (c.setCur pf) := fun k hk hsz => by
+      rw [setCur_n] at hk; rw [setCur_size] at hsz
+      rw [setCur_vals_ne c pf k (by omega)]; exact h k hk hsz
+    have hacc : Err.complete e1 → CtNn ((c.setCur pf).account pf) := by
+      intro hc k hk hsz
+      rw [account_n, setCur_n] at hk
+      rw [account_vals, setCur_size] at hsz
+      rw [account_vals]
+      exact setCur_storedP NaNest c pf h (hvd hc) k hk hsz
+    cases e1 <;> simp only
+    case ok => exact hacc (Or.inl rfl)
+    case moreValues =>
+      have hnx : (if c.n < c.vals.size then (c.setCur pf).account pf
+          else { (c.setCur pf).account pf with last := {} }) = c.next pf := rfl
+      rw [hnx]
+      have hcl' := next_clean c pf hcl
+      have hL : CtNn (c.next pf) := by
+        have := hacc (Or.inr rfl)
+        unfold PContacts.next; split
+        · exact this
+        · exact this
+      by_cases hg : offs < next ∧ next ≤ b.size
+      · rw [if_pos hg]
+        exact ih (b.size - next) (by omega) next (c.next pf) hg.2 hcl'.1 hcl'.2 hL rfl
+      · rw [if_neg hg]; exact hL
+    case moreBytes => exact hset
+    all_goals
+      split
+      · exact hset
+      · exact h
+
+/-- **Contact**: parsing the value list of a new Contact header line keeps / makes every stored value nested -/
+theorem parseAllContactValues_new_nn (b : Buf) (o : Nat) (c : PContacts) (k : Nat) (hfit : b.size ≤ 65535)
+    (ho : o ≤ b.size) (hI : CtIdle b c) (hst : CtNn c) :
+    CtNn (parseAllContactValues b o { c with hNo := k, lastHVal := {} }).2.2 := by
+  rw [parseAllContactValues_eq_wrap, bump_wrap]
+  obtain ⟨a1, a2, _⟩ := wrap_scalars c
+  exact contactsLoop_nn b o _ hfit ho hI.clean hI.cur (fun j hj hsz => by
+      have hj' : j < c.wrap.n := hj
+      have hsz' : j < c.wrap.vals.size := hsz
+      rw [a1] at hj'; rw [a2] at hsz'
+      show NaNest c.wrap.vals[j]!
+      rw [a2]; exact hst j hj' hsz')
+
+/-- every stored identity is nested -/
+def PaNn (c : PPAIs) : Prop := ∀ k, k < c.n → k < c.vals.size → NaNest c.vals[k]!
+
+theorem paisLoop_nn (b : Buf) (offs : Nat) (c : PPAIs) (hfit : b.size ≤ 65535) (ho : offs ≤ b.size)
+    (hcl : PaClean c) (hcur : c.cur = {}) (h : PaNn c) : PaNn (paisLoop b offs c).2.2 := by
+  induction hk : b.size - offs using Nat.strongRecOn generalizing offs c with
+  | _ k ih =>
+    rw [paisLoop]
+    rcases hp : parseOnePAI b offs c.cur with ⟨next, e1, pf⟩
+    obtain ⟨e0, hp0, hok0, hmv0, _⟩ := parseOnePAI_under b offs c.cur hp
+    have hvd : Err.complete e0 → NaNest pf := fun hc =>
+      (parseNameAddrPVal_nest_new HdrPAI b offs hfit ho (by rw [hcur] at hp0; exact hp0) hc).1
+    have hset : PaNn (c.setCur pf) := fun k hk hsz => by
+      rw [paSetCur_n] at hk; rw [paSetCur_size] at hsz
+      rw [paSetCur_vals_ne c pf k (by omega)]; exact h k hk hsz
+    have hacc : Err.complete e0 → PaNn ((c.setCur pf).account pf) := by
+      intro hc k hk hsz
+      rw [paAccount_n, paSetCur_n] at hk
+      rw [paAccount_vals, paSetCur_size] at hsz
+      rw [paAccount_vals]
+      exact paSetCur_storedP NaNest c pf h (hvd hc) k hk hsz
+    cases e1 <;> simp only
+    case ok => exact hacc (Or.inl (hok0 rfl))
+    case moreValues =>
+      have hnx : (if c.n < c.vals.size then (c.setCur pf).account pf
+          else { (c.setCur pf).account pf with last := {} }) = c.next pf := rfl
+      rw [hnx]
+      have hcl' := paNext_clean c pf hcl
+      have hL : PaNn (c.next pf) := by
+        have := hacc (Or.inr (hmv0 rfl))
+        unfold PPAIs.next; split
+        · exact this
+        · exact this
+      by_cases hg : offs < next ∧ next ≤ b.size
+      · rw [if_pos hg]
+        exact ih (b.size - next) (by omega) next (c.next pf) hg.2 hcl'.1 hcl'.2 hL rfl
+      · rw [if_neg hg]; exact hL
+    case moreBytes => exact hset
+    all_goals
+      split
+      · exact hset
+      · exact h
+
+/-- **P-Asserted-Identity** -/
+theorem parseAllPAIValues_new_nn (b : Buf) (o : Nat) (c : PPAIs) (k : Nat) (hfit : b.size ≤ 65535)
+    (ho : o ≤ b.size) (hI : PaIdle b c) (hst : PaNn c) :
+    PaNn (parseAllPAIValues b o { c with hNo := k, lastHVal := {} }).2.2 := by
+  rw [parseAllPAIValues_eq_wrap, paBump_wrap]
+  obtain ⟨a1, a2, _⟩ := paWrap_scalars c
+  exact paisLoop_nn b o _ hfit ho hI.clean hI.cur (fun j hj hsz => by
+      have hj' : j < c.wrap.n := hj
+      have hsz' : j < c.wrap.vals.size := hsz
+      rw [a1] at hj'; rw [a2] at hsz'
+      show NaNest c.wrap.vals[j]!
+      rw [a2]; exact hst j hj' hsz')
+
+/-! ### the header-value dispatch, the header line, the header block, the message -/
+
+/-- **nesting of the name-addr header values of a message**: From and To are untouched (`{}`: no such header yet) or
+    finished and nested (`NaNest`); every stored Contact and P-Asserted-Identity value is nested -/
+structure HvNn (hv : PHdrVals) : Prop where
+  from_ : hv.from_ = {} ∨ (hv.from_.state = .fin ∧ NaNest hv.from_)
+  to : hv.to = {} ∨ (hv.to.state = .fin ∧ NaNest hv.to)
+  ct : CtNn hv.contacts
+  pa : PaNn hv.pais
+
+def HbNn (hb : Option PHdrVals) : Prop := ∀ hv, hb = some hv → HvNn hv
+
+theorem parseBody_nn (b : Buf) (o : Nat) (h : Hdr) (hv : PHdrVals) (hfit : b.size ≤ 65535)
+    (ho : o ≤ b.size) (hst : h.state = .bodyStart) (hct : CtIdle b hv.contacts)
+    (hpa : PaIdle b hv.pais) (N : HvNn hv) {n : Nat} {e : Err} {h2 : Hdr} {hb2 : Option PHdrVals}
+    (hr : parseBody b o h (some hv) = (n, e, h2, hb2)) : e = .ok → HbNn hb2 := by
+  have hskip : ∀ {n : Nat} {e : Err} {h2 : Hdr} {hb2 : Option PHdrVals},
+      (o, Err.ok, h, some hv) = (n, e, h2, hb2) → e = .ok → HbNn hb2 := by
+    intro n e h2 hb2 hh _
+    simp only [Prod.mk.injEq] at hh
+    obtain ⟨rfl, rfl, rfl, rfl⟩ := hh
+    intro hv' hq; cases hq; exact N
+  unfold parseBody parseFromVal at hr
+  simp only at hr
+  by_cases h_from_ : (h.type == HdrFrom) = true
+  · simp only [h_from_, ↓reduceIte] at hr
+    by_cases hp : (!hv.from_.parsed) = true
+    · simp only [hp, ↓reduceIte] at hr
+      rcases hq : parseNameAddrPVal HdrFrom b o hv.from_ with ⟨n1, e1, f1⟩
+      rw [hq] at hr; simp only [Prod.mk.injEq] at hr
+      obtain ⟨rfl, rfl, rfl, rfl⟩ := hr
+      intro he hv' hh; cases hh
+      subst he
+      have hnf : hv.from_.state ≠ .fin := by simpa [PFromBody.parsed] using hp
+      have h0 : hv.from_ = {} := by rcases N.from_ with q | q; exact q; exact absurd q.1 hnf
+      rw [h0] at hq
+      have hN := (parseNameAddrPVal_nest_new HdrFrom b o hfit ho hq (Or.inl rfl)).1
+      have hfin := (parseNameAddrPVal_post HdrFrom b o {} hq (Or.inl rfl)).1
+      exact ⟨Or.inr ⟨hfin, hN⟩, N.to, N.ct, N.pa⟩
+    · simp only [hp, Bool.false_eq_true, ↓reduceIte] at hr
+      exact hskip hr
+  simp only [h_from_, Bool.false_eq_true, ↓reduceIte] at hr
+  by_cases h_to : (h.type == HdrTo) = true
+  · simp only [h_to, ↓reduceIte] at hr
+    by_cases hp : (!hv.to.parsed) = true
+    · simp only [hp, ↓reduceIte] at hr
+      rcases hq : parseNameAddrPVal HdrTo b o hv.to with ⟨n1, e1, f1⟩
+      rw [hq] at hr; simp only [Prod.mk.injEq] at hr
+      obtain ⟨rfl, rfl, rfl, rfl⟩ := hr
+      intro he hv' hh; cases hh
+      subst he
+      have hnf : hv.to.state ≠ .fin := by simpa [PFromBody.parsed] using hp
+      have h0 : hv.to = {} := by rcases N.to with q | q; exact q; exact absurd q.1 hnf
+      rw [h0] at hq
+      have hN := (parseNameAddrPVal_nest_new HdrTo b o hfit ho hq (Or.inl rfl)).1
+      have hfin := (parseNameAddrPVal_post HdrTo b o {} hq (Or.inl rfl)).1
+      exact ⟨N.from_, Or.inr ⟨hfin, hN⟩, N.ct, N.pa⟩
+    · simp only [hp, Bool.false_eq_true, ↓reduceIte] at hr
+      exact hskip hr
+  simp only [h_to, Bool.false_eq_true, ↓reduceIte] at hr
+  by_cases h_callid : (h.type == HdrCallID) = true
+  · simp only [h_callid, ↓reduceIte] at hr
+    by_cases hp : (!hv.callid.parsed) = true
+    · simp only [hp, ↓reduceIte] at hr
+      rcases hq : parseCallIDVal b o hv.callid with ⟨n1, e1, f1⟩
+      rw [hq] at hr; simp only [Prod.mk.injEq] at hr
+      obtain ⟨rfl, rfl, rfl, rfl⟩ := hr
+      intro _ hv' hh; cases hh
+      exact ⟨N.from_, N.to, N.ct, N.pa⟩
+    · simp only [hp, Bool.false_eq_true, ↓reduceIte] at hr
+      exact hskip hr
+  simp only [h_callid, Bool.false_eq_true, ↓reduceIte] at hr
+  by_cases h_cseq : (h.type == HdrCSeq) = true
+  · simp only [h_cseq, ↓reduceIte] at hr
+    by_cases hp : (!hv.cseq.parsed) = true
+    · simp only [hp, ↓reduceIte] at hr
+      rcases hq : parseCSeqVal b o hv.cseq with ⟨n1, e1, f1⟩
+      rw [hq] at hr; simp only [Prod.mk.injEq] at hr
+      obtain ⟨rfl, rfl, rfl, rfl⟩ := hr
+      intro _ hv' hh; cases hh
+      exact ⟨N.from_, N.to, N.ct, N.pa⟩
+    · simp only [hp, Bool.false_eq_true, ↓reduceIte] at hr
+      exact hskip hr
+  simp only [h_cseq, Bool.false_eq_true, ↓reduceIte] at hr
+  by_cases h_clen : (h.type == HdrCLen) = true
+  · simp only [h_clen, ↓reduceIte] at hr
+    by_cases hp : (!hv.clen.parsed) = true
+    · simp only [hp, ↓reduceIte] at hr
+      rcases hq : parseCLenVal b o hv.clen with ⟨n1, e1, f1⟩
+      rw [hq] at hr; simp only [Prod.mk.injEq] at hr
+      obtain ⟨rfl, rfl, rfl, rfl⟩ := hr
+      intro _ hv' hh; cases hh
+      exact ⟨N.from_, N.to, N.ct, N.pa⟩
+    · simp only [hp, Bool.false_eq_true, ↓reduceIte] at hr
+      exact hskip hr
+  simp only [h_clen, Bool.false_eq_true, ↓reduceIte] at hr
+  by_cases h_contacts : (h.type == HdrContact) = true
+  · simp only [h_contacts, ↓reduceIte] at hr
+    have hc0 : (if h.state != .hContact then { hv.contacts with hNo := hv.contacts.hNo + 1, lastHVal := {} } else hv.contacts) =
+        { hv.contacts with hNo := hv.contacts.hNo + 1, lastHVal := {} } := by rw [hst]; rfl
+    rw [hc0] at hr
+    have hS := parseAllContactValues_new_nn b o hv.contacts (hv.contacts.hNo + 1) hfit ho hct N.ct
+    rcases hq : parseAllContactValues b o { hv.contacts with hNo := hv.contacts.hNo + 1, lastHVal := {} } with ⟨n1, e1, f1⟩
+    rw [hq] at hr hS; simp only [Prod.mk.injEq] at hr
+    obtain ⟨rfl, rfl, rfl, rfl⟩ := hr
+    intro _ hv' hh; cases hh
+    exact ⟨N.from_, N.to, hS, N.pa⟩
+  simp only [h_contacts, Bool.false_eq_true, ↓reduceIte] at hr
+  by_cases h_expires : (h.type == HdrExpires) = true
+  · simp only [h_expires, ↓reduceIte] at hr
+    by_cases hp : (!hv.expires.parsed) = true
+    · simp only [hp, ↓reduceIte] at hr
+      rcases hq : parseUIntVal b o hv.expires with ⟨n1, e1, f1⟩
+      rw [hq] at hr; simp only [Prod.mk.injEq] at hr
+      obtain ⟨rfl, rfl, rfl, rfl⟩ := hr
+      intro _ hv' hh; cases hh
+      exact ⟨N.from_, N.to, N.ct, N.pa⟩
+    · simp only [hp, Bool.false_eq_true, ↓reduceIte] at hr
+      exact hskip hr
+  simp only [h_expires, Bool.false_eq_true, ↓reduceIte] at hr
+  by_cases h_pais : (h.type == HdrPAI) = true
+  · simp only [h_pais, ↓reduceIte] at hr
+    have hc0 : (if h.state != .hPAI then { hv.pais with hNo := hv.pais.hNo + 1, lastHVal := {} } else hv.pais) =
+        { hv.pais with hNo := hv.pais.hNo + 1, lastHVal := {} } := by rw [hst]; rfl
+    rw [hc0] at hr
+    have hS := parseAllPAIValues_new_nn b o hv.pais (hv.pais.hNo + 1) hfit ho hpa N.pa
+    rcases hq : parseAllPAIValues b o { hv.pais with hNo := hv.pais.hNo + 1, lastHVal := {} } with ⟨n1, e1, f1⟩
+    rw [hq] at hr hS; simp only [Prod.mk.injEq] at hr
+    obtain ⟨rfl, rfl, rfl, rfl⟩ := hr
+    intro _ hv' hh; cases hh
+    exact ⟨N.from_, N.to, N.ct, hS⟩
+  simp only [h_pais, Bool.false_eq_true, ↓reduceIte] at hr
+  exact hskip hr
+
+/-- the two halves of the header-line invariant used here: the header values are nested (`S`); a line that ends
+    with OK or "empty line" leaves them nested (`T`) -/
+def HlNnS : Nat → HLσ → Prop := fun _ st => HbNn st.2
+def HlNnT : Nat → Err → HLσ → Prop := fun _ e st => e = .ok ∨ e = .empty → HbNn st.2
+
+theorem HlNnT.err {n : Nat} {e : Err} {st : HLσ} (h1 : e ≠ .ok) (h2 : e ≠ .empty) : HlNnT n e st :=
+  fun hh => by rcases hh with hh | hh; exact absurd hh h1; exact absurd hh h2
+
+theorem hlAfterColon_nn (b : Buf) (i s : Nat) (h : Hdr) (hb : Option PHdrVals) (hfit : b.size ≤ 65535)
+    (hsi : s ≤ i) (hi : i ≤ b.size) (hst : h.state = .bodyStart) (hH : HbLo b s hb) (G : HbNn hb) :
+    StepAll2 HlNnS HlNnT (hlAfterColon b i h hb) := by
+  unfold hlAfterColon
+  split
+  · exact HlNnT.err (n := i) (by decide) (by decide)
+  · rename_i nm _
+    simp only
+    cases hb with
+    | none =>
+      have : parseBody b i { h with type := getHdrType nm } none = (i, .ok, { h with type := getHdrType nm }, none) := by
+        unfold parseBody; rfl
+      rw [this]
+      have hne : ((({ h with type := getHdrType nm } : Hdr).state != HState.bodyStart) = true) = False := by
+        show ((h.state != HState.bodyStart) = true) = False
+        rw [hst]; simp
+      simp only [hne, ↓reduceIte]
+      exact G
+    | some hv =>
+      obtain ⟨L, hct, hpa⟩ := hH hv rfl
+      rcases hp : parseBody b i { h with type := getHdrType nm } (some hv) with ⟨n, e, h2, hb2⟩
+      obtain ⟨hv2, rfl, _, hskip, _⟩ :=
+        parseBody_lo b i s { h with type := getHdrType nm } hv hfit hsi hi hst L hct hpa hp
+      have hN := parseBody_nn b i { h with type := getHdrType nm } hv hfit hi hst hct hpa (G hv rfl) hp
+      simp only
+      by_cases hs2 : h2.state = .bodyStart
+      · obtain ⟨rfl, _, _⟩ := hskip hs2
+        have hne : ((h2.state != HState.bodyStart) = true) = False := by rw [hs2]; simp
+        simp only [hne, ↓reduceIte]
+        exact hN rfl
+      · have hne1 : (h2.state != HState.bodyStart) = true := by simpa using hs2
+        simp only [hne1, ↓reduceIte]
+        have hne : e ≠ .empty := by
+          have := parseBody_ne_empty b i { h with type := getHdrType nm } (some hv)
+          rw [hp] at this; exact this
+        intro he
+        rcases he with he | he
+        · exact hN he
+        · exact absurd he hne
+
+theorem hlName_nn (b : Buf) (i s : Nat) (h : Hdr) (hb : Option PHdrVals) (hfit : b.size ≤ 65535)
+    (hsi : s ≤ i) (hH : HbLo b s hb) (G : HbNn hb) : StepAll2 HlNnS HlNnT (hlName b i h hb) := by
+  have hge := skipTokenDelim_ge b i 58
+  unfold hlName
+  simp only
+  split
+  · exact HlNnT.err (n := 0) (by decide) (by decide)
+  · rename_i c hj
+    have hjl := get?_lt hj
+    split
+    · split
+      · exact HlNnT.err (n := 0) (by decide) (by decide)
+      · exact G
+    · split
+      · split
+        · exact HlNnT.err (n := 0) (by decide) (by decide)
+        · exact hlAfterColon_nn b _ s _ hb hfit (by omega) (by omega) rfl hH G
+      · exact HlNnT.err (n := 0) (by decide) (by decide)
+
+theorem hlValEnd_nn (b : Buf) (i : Nat) (h : Hdr) (hb : Option PHdrVals) (G : HbNn hb) :
+    StepAll2 HlNnS HlNnT (hlValEnd b i h hb) := by
+  unfold hlValEnd
+  rcases hsk : skipLWS b i 0 with ⟨n, crl, e⟩
+  cases e <;> simp only
+  case ok => exact G
+  all_goals exact fun _ => G
+
+theorem hlStep_nn (b : Buf) (i o s : Nat) (c : UInt8) (st : HLσ) (hfit : b.size ≤ 65535) (hso : s ≤ o)
+    (hb : b[i]? = some c) (H : HlLoI b o s i st) (G : HbNn st.2) : StepAll2 HlNnS HlNnT (hlStep b i c st) := by
+  obtain ⟨h, hv⟩ := st
+  have hlt := get?_lt hb
+  have hoi : o ≤ i := H.oi
+  have hH : HbLo b s hv := H.hb
+  have hempty : ∀ n, HlNnT n .empty ({ h with state := .fin }, hv) := fun n _ => G
+  unfold hlStep
+  simp only
+  cases hst : h.state <;> simp only
+  case init =>
+    split
+    · split
+      · exact HlNnT.err (n := 0) (by decide) (by decide)
+      · split
+        · exact hempty 0
+        · exact hempty 0
+    · split
+      · exact hempty 0
+      · exact hlName_nn b i s _ hv hfit (by omega) hH G
+  case name => exact hlName_nn b i s h hv hfit (by omega) hH G
+  case nameEnd =>
+    have hge := skipWS_ge b i
+    split
+    · exact HlNnT.err (n := 0) (by decide) (by decide)
+    · rename_i c1 hj
+      have hjl := get?_lt hj
+      split
+      · exact hlAfterColon_nn b _ s _ hv hfit (by omega) (by omega) rfl hH G
+      · exact HlNnT.err (n := 0) (by decide) (by decide)
+  case bodyStart =>
+    rcases hsk : skipLWS b i 0 with ⟨n, crl, e⟩
+    cases e <;> simp only
+    case ok => exact G
+    all_goals exact fun _ => G
+  case val =>
+    split
+    · exact HlNnT.err (n := 0) (by decide) (by decide)
+    · exact hlValEnd_nn b _ _ hv G
+  case valEnd => exact hlValEnd_nn b i h hv G
+  all_goals
+    (exfalso
+     have := H.gen
+     simp only [hst] at this
+     rcases this with hh | hh | hh | hh | hh | hh <;> cases hh)
+
+theorem StepAll2.and {σ : Type} {S1 S2 : Nat → σ → Prop} {T1 T2 : Nat → Err → σ → Prop} {r : Step σ}
+    (h1 : StepAll2 S1 T1 r) (h2 : StepAll2 S2 T2 r) :
+    StepAll2 (fun i st => S1 i st ∧ S2 i st) (fun n e st => T1 n e st ∧ T2 n e st) r := by
+  cases r with
+  | cont i st => exact ⟨h1, h2⟩
+  | done o e st => exact ⟨h1, h2⟩
+
+/-- **header line**: ParseHdrLine on a new header keeps / makes the name-addr header values nested (same
+    hypotheses as `parseHdrLine_lo`) -/
+theorem parseHdrLine_nn (b : Buf) (o s : Nat) (h : Hdr) (hb : Option PHdrVals) (hfit : b.size ≤ 65535) (hso : s ≤ o)
+    (hst : h.state = .init) (hval : h.val.len = 0) (hH : HbLo b s hb) (G : HbNn hb)
+    {o' : Nat} {e : Err} {h' : Hdr} {hb' : Option PHdrVals} (hr : parseHdrLine b o h hb = (o', e, h', hb')) :
+    e = .ok ∨ e = .empty → HbNn hb' := by
+  unfold parseHdrLine at hr
+  rcases hrl : runLoop hlMachine b o (h, hb) with ⟨o1, e1, h1, hb1⟩
+  rw [hrl] at hr
+  simp only [Prod.mk.injEq] at hr
+  obtain ⟨rfl, rfl, rfl, rfl⟩ := hr
+  have := runLoop_safe2 hlMachine b (fun i st => HlLoI b o s i st ∧ HlNnS i st)
+    (fun n e st => HlLoQ o s n e st ∧ HlNnT n e st) hl_progress
+    (fun i c st hb' hS => (hlStep_lo b i o s c st hfit hso hb' hS.1).and (hlStep_nn b i o s c st hfit hso hb' hS.1 hS.2))
+    (fun i st _ => ⟨⟨(fun hh => by cases hh), (fun hh => by rcases hh with hh | hh <;> cases hh)⟩,
+      (fun hh => by rcases hh with hh | hh <;> cases hh)⟩) o (h, hb)
+    ⟨⟨Nat.le_refl _, hH, Or.inl hst, (fun _ => ⟨rfl, hval⟩), (fun hh => by rw [hst] at hh; cases hh),
+     (fun hh => by rw [hst] at hh; rcases hh with hh | hh <;> cases hh),
+     (fun hh => by rw [hst] at hh; rcases hh with hh | hh <;> cases hh)⟩, G⟩
+  rw [hrl] at this
+  exact this.2
+
+/-- **header block**: ParseHeaders (same hypotheses as `parseHeaders_lo`) keeps / makes the name-addr header values
+    nested -/
+theorem parseHeaders_nn (b : Buf) (offs s : Nat) (hl : HdrLst) (hb : Option PHdrVals) (hfit : b.size ≤ 65535)
+    (hok1 : hlsOK b hl) (hok2 : hbOK b offs hb) (hpe : hlsPend hl hb) (ho : offs ≤ b.size)
+    (H : HlsSafe b offs hl hb) (hso : s ≤ offs) (hcur : hl.cur = {}) (L : HlsLo s hl)
+    (LV : ∀ hv, hb = some hv → HvLo s hv) (G : HbNn hb) :
+    (parseHeaders b offs hl hb).2.1 = .ok → HbNn (parseHeaders b offs hl hb).2.2.2 := by
+  induction hk : b.size - offs using Nat.strongRecOn generalizing offs hl hb with
+  | _ k ih =>
+    rw [parseHeaders.eq_1 b offs hl hb]
+    by_cases hlt : offs < b.size
+    · rw [if_pos hlt]
+      have hI : hlOK b offs hl.cur hb := ⟨by omega, hlsOK_cur hok1, hok2⟩
+      rcases hp1 : parseHdrLine b offs hl.cur hb with ⟨n1, e1, g1, v1⟩
+      obtain ⟨hO, hS, hF, hN, hE⟩ := parseHdrLine_safe b offs hl.cur hb hfit H.cur hI hp1
+      have hHb : HbLo b s hb := by
+        intro hv hh
+        have Hv := H.cur.hv hv hh
+        rw [hcur] at Hv
+        exact ⟨LV hv hh, Hv.ctI (fun hq => by cases hq), Hv.paI (fun hq => by cases hq)⟩
+      obtain ⟨lo1, lo2⟩ := parseHdrLine_lo b offs s hl.cur hb hfit hso (by rw [hcur]) (by rw [hcur]) hHb hp1
+      have nn2 := parseHdrLine_nn b offs s hl.cur hb hfit hso (by rw [hcur]) (by rw [hcur]) hHb G hp1
+      cases e1 <;> simp only
+      case ok =>
+        have hpost := parseHdrLine_post b offs hl.cur hb hI hp1 (Or.inl rfl)
+        have hg : offs < n1 := parseHdrLine_ok_gt b offs hl.cur hb hI hpe.1 hp1
+        rw [if_pos hg]
+        exact ih (b.size - n1) (by omega) n1 _ v1 (hlsOK_next g1 hok1) hpost.2
+          (hlsPend_next g1 v1 hpe) hpost.1 (H.next g1 (hS (Or.inl rfl)) (hF rfl) (by omega)) (by omega)
+          (flo_next_cur hl g1 H.clean) (L.next H.inn g1 (lo1 rfl) hso) (lo2 (Or.inl rfl)) (nn2 (Or.inl rfl)) rfl
+      case empty =>
+        split
+        · intro _; exact nn2 (Or.inr rfl)
+        · intro hh; cases hh
+      all_goals (intro hh; cases hh)
+    · rw [if_neg hlt]
+      intro hh; cases hh
+
+/-- **message, one call from the initial state** (same hypotheses as `parseSIPMsg_lo`): after a successful
+    ParseSIPMsg the From and To values (if such headers were seen) and every stored Contact and
+    P-Asserted-Identity value are nested -/
+theorem parseSIPMsg_nn (b : Buf) (o : Nat) (m : PSIPMsg) (flags : Nat) (hfit : b.size ≤ 65535)
+    (hok : msgOK2 b o m) (H : MsgSafe b o m) (hst : m.state = .init) (hcur : m.hl.cur = {}) (L : MsgLo o m)
+    (G : HvNn m.pv) {o' : Nat} {m' : PSIPMsg} (hr : parseSIPMsg b o m flags = (o', .ok, m')) : HvNn m'.pv := by
+  obtain ⟨ho, _, hrest⟩ := hok
+  obtain ⟨hls, hvs, hpe⟩ := hrest (by rw [hst]; decide)
+  have h1 : parseSIPMsg b o m flags = msgFLine b o { m with offs := o, state := .fline } flags := by
+    unfold parseSIPMsg; rw [hst]
+  rw [h1] at hr
+  unfold msgFLine at hr
+  simp only at hr
+  have hF := parseFLine_safe b o m.fl hfit (H.flS (Or.inl hst))
+  have hge := parseFLine_ge b o m.fl
+  rcases hp : parseFLine b o m.fl with ⟨o1, e1, fl1⟩
+  rw [hp] at hr hF hge
+  simp only at hF hge
+  cases e1 <;> simp only at hr
+  case ok =>
+    rw [msgHeaders_eq] at hr
+    simp only at hr
+    have hHls : HlsSafe b o1 m.hl (some m.pv) := (H.hls (Or.inl hst)).mono hge hF.ho
+    have hNn := parseHeaders_nn b o1 o m.hl (some m.pv) hfit hls (hvOK_mono hvs hge hF.ho) hpe hF.ho hHls hge hcur L.hl
+      (fun hv hh => by cases hh; exact L.pv) (fun hv hh => by cases hh; exact G)
+    have hsome := parseHeaders_isSome b o1 m.hl m.pv
+    rcases hp2 : parseHeaders b o1 m.hl (some m.pv) with ⟨o2, e2, hl2, hb2⟩
+    rw [hp2] at hr hNn hsome
+    cases hb2 with
+    | none => cases hsome
+    | some pv2 =>
+      unfold afterHeaders at hr
+      cases e2 <;> simp only [Option.getD_some] at hr
+      case ok =>
+        obtain ⟨k1, k2, k3⟩ := flo_msgBody_keeps b o2 { m with offs := o, fl := fl1, hl := hl2, pv := pv2, state := .body } flags
+        rw [hr] at k1 k2 k3
+        rw [k3]; exact hNn rfl pv2 rfl
+      all_goals (exfalso; have hq := congrArg (fun r => r.2.1) hr; simp only at hq; exact flo_msgErr_ne_ok _ _ _ _ (by decide) hq)
+  all_goals (exfalso; have hq := congrArg (fun r => r.2.1) hr; simp only at hq; exact flo_msgErr_ne_ok _ _ _ _ (by decide) hq)
+
+theorem HvNn_new (k : Nat) : HvNn ({ contacts := { vals := Array.replicate k {} } } : PHdrVals) :=
+  ⟨Or.inl rfl, Or.inl rfl, (fun j hj _ => by cases hj), (fun j hj _ => by cases hj)⟩
+
+theorem HvNn_init (m : PSIPMsg) (len kh kc : Nat) (hdrs : Option Unit) (cts : Option Unit) :
+    HvNn (m.init len (hdrs.map fun _ => Array.replicate kh {}) (cts.map fun _ => Array.replicate kc {})).pv := by
+  have key : ∀ k k', HvNn (initObj len k k').pv := fun k k' => HvNn_new k'
+  cases hdrs <;> cases cts
+  · exact key 10 10
+  · exact key 10 kc
+  · exact key kh 10
+  · exact key kh kc
+
+/-- **message, one call on an object produced by Init** (any previous contents, caller arrays of any capacity or
+    none; buffers within the 65,535-byte limit) -/
+theorem parseSIPMsg_nn_init (b : Buf) (o : Nat) (m0 : PSIPMsg) (len kh kc : Nat) (hdrs cts : Option Unit) (flags : Nat)
+    (hfit : b.size ≤ 65535) (ho : o ≤ b.size) {o' : Nat} {m' : PSIPMsg}
+    (hr : parseSIPMsg b o (m0.init len (hdrs.map fun _ => Array.replicate kh {}) (cts.map fun _ => Array.replicate kc {}))
+      flags = (o', .ok, m')) : HvNn m'.pv := by
+  obtain ⟨q1, q2, q3⟩ := MsgLo_init o m0 len kh kc hdrs cts
+  exact parseSIPMsg_nn b o _ flags hfit (msgOK2_init b o ho m0 len kh kc hdrs cts)
+    (MsgSafe_init b o ho m0 len kh kc hdrs cts) q3 q2 q1 (HvNn_init m0 len kh kc hdrs cts) hr
+
+/-- **message, under every chunk schedule, from Init**: if the chain of resumed calls over growing prefixes ends
+    with OK, the name-addr header values of the final object are nested -/
+theorem parseSIPMsg_nn_schedule_init (flags : Nat) (o : Nat) (m0 : PSIPMsg) (len kh kc : Nat) (hdrs cts : Option Unit)
+    (l : List Buf) (hg : Growing l) (hfit : ∀ x ∈ l, x.size ≤ 65535) (hne : l ≠ []) (ho : ∀ b ∈ l, o ≤ b.size)
+    {o' : Nat} {m' : PSIPMsg}
+    (hr : resumeRun (C01.msgP flags) o
+      (m0.init len (hdrs.map fun _ => Array.replicate kh {}) (cts.map fun _ => Array.replicate kc {})) l = (o', .ok, m')) :
+    HvNn m'.pv := by
+  obtain ⟨b, hb, h⟩ := flo_schedule_init flags o m0 len kh kc hdrs cts l hg hfit hne ho hr
+  exact parseSIPMsg_nn_init b o m0 len kh kc hdrs cts flags (hfit b hb) (ho b hb) h
+
+/-- **`HvNn`, spelled out** with `NaNest.meaning`: for From, To (unless untouched) and each stored Contact /
+    P-Asserted-Identity value `p`: URI inside `p.v`; display name (if any) inside `p.v` and before the URI; parameter
+    span (if any) after the URI, inside `p.v`, ending where `p.v` ends; tag (if any) inside the parameter span -/
+theorem HvNn.meaning {hv : PHdrVals} (h : HvNn hv) :
+    (hv.from_ = {} ∨ NaNest hv.from_) ∧ (hv.to = {} ∨ NaNest hv.to) ∧
+    (∀ k, k < hv.contacts.n → k < hv.contacts.vals.size → NaNest hv.contacts.vals[k]!) ∧
+    (∀ k, k < hv.pais.n → k < hv.pais.vals.size → NaNest hv.pais.vals[k]!) :=
+  ⟨h.from_.imp id (fun q => q.2), h.to.imp id (fun q => q.2), h.ct, h.pa⟩
+
+/-! #### non-vacuity at the message level (tests: closed computations on the model) -/
+
+/-- test message, parsed from offset 2: quoted display name with an escaped quote, URI parameter, three From
+    parameters (tag in the middle), bare-URI To with a parameter after white space, a Contact line with two values,
+    one identity -/
+def nnExMsg : Buf := "xxINVITE sip:a@b SIP/2.0\r\nFrom: \"A \\\" b\" <sip:a@b;x=1>;p=q;tag=1a;z\r\nTo: sip:c@d ;tag=zz\r\nCall-ID: x\r\nCSeq: 1 INVITE\r\nContact: <sip:u@h>;expires=5 , \"N\" <sip:v@h>;q=0.5\r\nP-Asserted-Identity: <sip:i@h>\r\nContent-Length: 0\r\n\r\n".toUTF8.data
+
+example : (parseSIPMsg nnExMsg 2 C01.exInit 0).2.1 = Err.ok ∧
+    (parseSIPMsg nnExMsg 2 C01.exInit 0).2.2.pv.contacts.n = 2 ∧
+    (parseSIPMsg nnExMsg 2 C01.exInit 0).2.2.pv.pais.n = 1 ∧
+    (parseSIPMsg nnExMsg 2 C01.exInit 0).2.2.pv.from_.v = ⟨32, 35⟩ ∧
+    (parseSIPMsg nnExMsg 2 C01.exInit 0).2.2.pv.from_.params = ⟨55, 12⟩ ∧
+    (parseSIPMsg nnExMsg 2 C01.exInit 0).2.2.pv.from_.tag = ⟨63, 2⟩ := by decide +kernel
+
+/-- the hypotheses of `parseSIPMsg_nn_init` are met by this message -/
+example : HvNn (parseSIPMsg nnExMsg 2 C01.exInit 0).2.2.pv := by
+  have hv : (parseSIPMsg nnExMsg 2 C01.exInit 0).2.1 = Err.ok := by decide +kernel
+  have hr : parseSIPMsg nnExMsg 2 C01.exInit 0 =
+      ((parseSIPMsg nnExMsg 2 C01.exInit 0).1, .ok, (parseSIPMsg nnExMsg 2 C01.exInit 0).2.2) := by rw [← hv]
+  exact parseSIPMsg_nn_init nnExMsg 2 {} 0 0 0 none none 0 (by decide +kernel) (by decide +kernel) hr
 
 end Sipsp
